@@ -90,7 +90,8 @@ impl Holder for Vec<Tracked> {
 		v
 	}
 	fn sizes() -> Vec<usize> {
-		SIZES.to_vec()
+		// 682 elements fill one preallocation chunk: 683 and 1400 put failures into later chunks
+		SIZES.iter().copied().chain([683, 1400]).collect()
 	}
 	fn owned(&self) -> usize {
 		self.len()
@@ -570,6 +571,47 @@ macro_rules! vec_of {
 	};
 }
 vec_of!([Tracked; 3], 3, "Vec<[Tracked; 3]>");
+/// 960-byte items: 17 of them fill a 16 KiB preallocation chunk, so 18 and 35 outer items put the failing
+/// position into the second and third chunk
+pub struct Wide(pub [Tracked; 40]);
+impl Decode for Wide {
+	fn decode<I: parity_scale_codec::Input>(i: &mut I) -> Result<Self, parity_scale_codec::Error> {
+		Ok(Wide(Decode::decode(i)?))
+	}
+}
+impl DecodeWithMemTracking for Wide {}
+impl Holder for Wide {
+	const NAME: &'static str = "[Tracked; 40] item";
+	fn elems(_: usize) -> usize {
+		40
+	}
+	fn input(cmds: &[u8]) -> Vec<u8> {
+		cmds.to_vec()
+	}
+	fn sizes() -> Vec<usize> {
+		vec![40]
+	}
+	fn owned(&self) -> usize {
+		40
+	}
+}
+impl Holder for VecOf<Wide> {
+	const NAME: &'static str = "Vec<[Tracked; 40]> spanning several preallocation chunks";
+	fn elems(n: usize) -> usize {
+		n
+	}
+	fn input(cmds: &[u8]) -> Vec<u8> {
+		let mut v = compact(cmds.len() / 40);
+		v.extend_from_slice(cmds);
+		v
+	}
+	fn sizes() -> Vec<usize> {
+		vec![40 * 18, 40 * 35]
+	}
+	fn owned(&self) -> usize {
+		self.0.len() * 40
+	}
+}
 vec_of!(Box<[Tracked; 3]>, 3, "Vec<Box<[Tracked; 3]>>");
 vec_of!(Vec<Tracked>, 2, "Vec<Vec<Tracked>> (inner length 2)");
 vec_of!(Box<Tracked>, 1, "Vec<Box<Tracked>>");
@@ -803,7 +845,7 @@ macro_rules! all_holders {
 		$m!((Vec<Tracked>, [Tracked; 2]), $($a),*);
 		$m!(DStruct, $($a),*); $m!(DEnum, $($a),*); $m!(DEnumB, $($a),*); $m!(Transp, $($a),*); $m!(Box<Transp>, $($a),*); $m!(Transp2, $($a),*);
 		$m!(VecOf<[Tracked; 3]>, $($a),*); $m!(VecOf<Box<[Tracked; 3]>>, $($a),*); $m!(VecOf<Vec<Tracked>>, $($a),*);
-		$m!(VecOf<Box<Tracked>>, $($a),*); $m!(VecOf<Transp>, $($a),*);
+		$m!(VecOf<Box<Tracked>>, $($a),*); $m!(VecOf<Transp>, $($a),*); $m!(VecOf<Wide>, $($a),*);
 		$m!([Box<[Tracked; 2]>; 3], $($a),*); $m!([Vec<Tracked>; 2], $($a),*);
 		$m!(SkipT, $($a),*); $m!([SkipT; 3], $($a),*); $m!(Box<SkipT>, $($a),*); $m!(Rc<[SkipT; 3]>, $($a),*);
 		$m!(SkipNext, $($a),*); $m!(Box<SkipNext>, $($a),*);
